@@ -64,6 +64,30 @@ class Sink:
         return "".join(self.parts)
 
 
+class KbdFaultySink(Sink):
+    """stderr stand-in that fails for every thread but the one that created it (the reader of the status channel went away:
+    a status or help report cannot be written; the main thread's own messages are not touched)"""
+
+    def __init__(self, err_no, after=0):
+        Sink.__init__(self)
+        import threading
+        self._owner = threading.get_ident()
+        self.err_no = err_no
+        self.after = after
+        self.calls = 0
+        self.fired = 0
+
+    def write(self, s):
+        import threading
+        if threading.get_ident() != self._owner:
+            self.calls += 1
+            if self.calls > self.after:
+                self.fired += 1
+                import os
+                raise OSError(self.err_no, os.strerror(self.err_no))
+        return len(s)
+
+
 @contextlib.contextmanager
 def streams(out=None, err=None):
     old = sys.stdout, sys.stderr
